@@ -685,10 +685,47 @@ def _pss_verify_requires(ns):
 
 PSS_HASHES = ('sha256', 'sha384', 'sha512')      # the hashes TLS uses with RSA-PSS (sha1/sha224/md5: bounded run only)
 
-per_hash(RK + 'EMSA_PSS_verify', 'RSAKey.EMSA_PSS_verify',
+def by_cases(qual, name, params_for, hashes, cases, case_requires, **kw):
+    """Case analysis on the precondition.  The general contract (requires R) is registered for use at call
+    sites only; it is justified by one verified task per case c (requires R and case_requires(c)), for every
+    hash, plus the task `<name>[cases-exhaustive]` proving R ==> some case.  Keeps each task small (one
+    constant shift amount per task instead of an eight-way path split)."""
+    req = kw.pop('requires')
+    general = Contract(qual, params=params_for(hashes[0]), name=name, requires=req, **kw)
+    REG.contracts.setdefault(qual, []).insert(0, general)            # applied, not a task of its own
+    for h in hashes:
+        for cs in cases:
+            c = Contract(qual, params=params_for(h), name='%s[%s,%s]' % (name, h, cs),
+                         requires=(lambda cc: lambda ns: S.And(req(ns), case_requires(ns, cc)))(cs), **kw)
+            c.variant = '%s,%s' % (h, cs)
+            REG.add(c)
+
+    def exhaustive(api):
+        import tlslite.utils.rsakey  # noqa
+        st = api.st
+        ns = type('N', (), {})()
+        for pn, pt in params_for(hashes[0]).items():
+            setattr(ns, pn, api.make(pn, pt))
+        st.assume(truthy(_lift(req(ns))))
+        _reachable(st, 'precondition')
+        api.oblige(st, 'some-case-applies', S.Or(*[case_requires(ns, cs) for cs in cases]))
+    scenario('%s[cases-exhaustive]' % name, kw.get('prop'),
+             doc='the verified cases of %s cover its whole precondition' % name)(exhaustive)
+    return general
+
+
+def _reachable(st, what):
+    """vacuity guard for scenarios: the state in which a claim is made must be satisfiable"""
+    from pyvc.contract import _check_sat
+    if not _check_sat(st.pc):
+        raise RuntimeError('vacuous scenario: state unreachable at ' + what)
+
+
+by_cases(RK + 'EMSA_PSS_verify', 'RSAKey.EMSA_PSS_verify',
          lambda h: {'self': rsa_key(), 'mHash': T.bytes(), 'EM': T.bytes(), 'emBits': T.int(),
                     'hAlg': T.const(h), 'sLen': T.int()},
-         PSS_HASHES,
+         PSS_HASHES, ['%d-spare-bits' % z for z in range(8)],
+         lambda ns, cs: 8 * ceil8(ns.emBits) - ns.emBits == int(cs.split('-')[0]),
          requires=_pss_verify_requires,
          result=T.bool(),
          raises={InvalidSignature: ('iff', lambda ns: S.Not(PssSpec(ns.mHash, ns.EM, ns.emBits, _hs(ns), ns.sLen).consistent()))},
@@ -814,7 +851,8 @@ def _pss_sign_ensures(ns):
         return ok
     EM = pss_encoding(ns.mHash, _modbits(ns.old) - 1, _hs(ns), salt)
     return S.And(ok, ns.result == priv_bytes(ns.old, EM), S.len_(ns.result) == kK(ns.old),
-                 MC.b2i(EM) < kN(ns.old))          # OS2IP(EM) < n: the encoded message is a valid message representative
+                 MC.b2i(EM) < kN(ns.old),          # OS2IP(EM) < n: the encoded message is a valid message representative
+                 S.is_bytes(EM), S.len_(EM) == ceil8(_modbits(ns.old) - 1))
 
 
 def _sign_apply(c, ex, args, kwargs, st, fr, node):
@@ -844,16 +882,10 @@ def _sign_apply(c, ex, args, kwargs, st, fr, node):
         EM = pss_encoding(env['mHash'], _modbits(ns) - 1, _hs(ns), salt)
         sig_int = VInt(RsaPriv(kN(ns).t, kD(ns).t, MC.b2i(EM).t))
         s_ok.assume(truthy(S.And(res == priv_bytes(ns, EM), S.len_(res) == kK(ns), MC.b2i(EM) < kN(ns),
+                                 S.is_bytes(EM), S.len_(EM) == ceil8(_modbits(ns) - 1),
                                  sig_int >= 0, sig_int < kN(ns))))     # residue range: trusted model of the raw operation
         outs.append(Outcome('normal', s_ok, res))
     return outs
-
-
-def _reachable(st, what):
-    """vacuity guard for scenarios: the state in which a claim is made must be satisfiable"""
-    from pyvc.contract import _check_sat
-    if not _check_sat(st.pc):
-        raise RuntimeError('vacuous scenario: state unreachable at ' + what)
 
 
 per_hash(RK + 'RSASSA_PSS_sign', 'RSAKey.RSASSA_PSS_sign',
@@ -947,11 +979,15 @@ REG.note('C11', 'assumptions', 'O-defect-independent is structural: the syntheti
 REG.note('C11', 'not_built', 'ClientKeyExchange.parse (RSA branch) framing-only rejections; wire uniformity of _serverCertKeyExchange between '
                              'processClientKeyExchange and _getFinished (syntactic data-flow obligation); constant-time behaviour is not claimed')
 REG.note('C10', 'assumptions', 'PKCS#1 v1.5 exactness is proved for k >= |T| + 11 (RFC 8017 9.2 step 3); the complementary case is the separate '
-                               'obligation verify[pkcs1-short-modulus] (fails on the pinned tree: class pkcs1-short-ps-accepted)')
+                               'obligation verify[pkcs1-short-modulus] (known finding F30, class pkcs1-short-ps-accepted; verified with a small '
+                               'resource budget, opts rlimit_scale, because it is expected not to prove)')
 REG.note('C10', 'assumptions', 'PSS: emBits <= 2^24 (MGF1 "mask too long" unreachable), sLen >= 0; RSASSA-PSS contracts hold for every '
                                'modulus bit length (F6, modBits = 1 mod 8, fixed in /repo e55c238)')
 REG.note('C10', 'trusted', 'xor lemmas (x^y)^y == x and ((x^y) mod 2^t ^ y) mod 2^t == x mod 2^t on [0, 2^32): each proved in 34-bit '
                            'bit-vector arithmetic when contracts.rsa is imported')
+REG.note('C10', 'assumptions', 'EMSA_PSS_verify is verified by case analysis on 8emLen-emBits (8 tasks per hash + the task '
+                               'EMSA_PSS_verify[cases-exhaustive]); its general contract is applied at call sites on that basis. '
+                               'pss-sign-then-verify[sha256] uses the conclusion of the lemma tasks pss-encode-then-verify[sha256,*]')
 REG.note('C10', 'not_built', 'PSS round-trip lemmas are instantiated for SHA-256 only (the contract texts are hash-generic; other hashes are '
                              'covered by the bounded differential run rsa_pss)')
 REG.note('C10', 'not_built', '_addPKCS1Padding block type 2 (encryption padding, random non-zero filter loop); hashAndSign; rsa-pss key refusing '
@@ -1067,7 +1103,8 @@ def _pss_sign_verify(api):
         cut(s1, 'rt1: len(EM) == emLen', S.len_(EM) == emLen)
         cut(s1, 'rt2: OS2IP(S) is the signature representative', MC.b2i(sig) == sig_int)
         cut(s1, 'rt3: RSAVP1(RSASP1(m)) == m', VInt(RsaPub(MC.b2i(sig).t, e.t, n.t)) == m)
-        cut(s1, 'rt4: m < 256^emLen and I2OSP(m, emLen) == EM', S.And(m < S.pow256(emLen), MC.i2b(m, emLen) == EM))
+        cut(s1, 'rt4: m < 256^emLen', m < S.pow256(emLen))
+        cut(s1, 'rt5: I2OSP(m, emLen) == EM', MC.i2b(m, emLen) == EM)
         # lemma pss-encode-then-verify[sha256, 0..7 spare bits] (proved as separate tasks for all eight values
         # of 8emLen - emBits): every EMSA-PSS encoding with emLen >= hLen + sLen + 2 is consistent
         s1.assume(truthy(PssSpec(mHash, EM, emBits, 'sha256', sLen).consistent()))
